@@ -9,6 +9,7 @@ mkdir -p .bin .work evidence/replay
 (cd tools/gen && go build -o $V/.bin/gen .)
 ./.bin/gen ${VERIF_REPO:-/repo} $V/lean/FP/Gen $V/.work/gen.json || true
 python3 lean/mkall.py
-(cd lean && lake build FP driver)
 ./buildharness.sh $V/.bin/harness
+mkdir -p .work/schema && ./.bin/harness schema quick 0 .work/schema && cp .work/schema/Schema.lean lean/FP/Gen/Schema.lean
+(cd lean && lake build FP driver)
 echo setup-ok
